@@ -18,7 +18,7 @@ CLAUSES = {
     "C09": {"ok_matches_reference", "tree_is_apply_of_reference", "meta_follows_reference", "drivers_agree",
             "query_exact", "operation_terminates", "user_view_is_plain_tree"},
     "C20": {"self_describing", "embedded_jsonschema_current", "objects_validate_against_embedded_schema",
-            "schema_record_complete", "index_eq_rebuild"},
+            "schema_record_complete", "index_eq_rebuild", "state_observable"},
 }
 MODEL_INVS = {
     "C06": ["TocSyncInv", "IndexEqRebuild"],
@@ -76,9 +76,19 @@ def container_mutants(rep: Report, wd: Path, pid: str, depth: int = 9, num: int 
     rep.parts["bookkeeping_mutants_killed"] = killed
 
 
+FLAVOURS = [
+    {},                                                           # balanced
+    {"data_weights": {"set_attr": 8, "del_attr": 6, "set_dataset": 1.5, "create_group": 1, "delete": 1, "copy": 1, "move": 1},
+     "p_attach": 0.08, "p_detach": 0.02, "p_reserved": 0.02, "pb": 0.3, "pr": 0.1, "attr_keys": ["k"]},  # attribute-heavy, many boundaries
+    {"p_attach": 0.42, "p_detach": 0.22, "p_reserved": 0.03, "pr": 0.22, "pb": 0.1},      # metadata-heavy, many reopen points
+    {"data_weights": {"copy": 6, "move": 5, "delete": 4, "set_dataset": 3, "create_group": 3, "set_attr": 1, "del_attr": 0.5},
+     "p_attach": 0.3, "p_detach": 0.05, "p_reserved": 0.03},                              # restructuring-heavy
+]
+
+
 def jobs(n: int, nops: int, seed: int, **kw) -> List[Dict[str, Any]]:
-    return [{"tid": k + 1, "seed": seed * 17 + k, "nops": nops, "stage": 0 if k % 4 == 0 else 1,
-             "concrete": k % 3 == 0, **kw} for k in range(n)]
+    return [{"tid": k + 1, "seed": seed * 17 + k, "nops": nops, "stage": 0 if k % 5 == 0 else 1,
+             "concrete": k % 3 == 0, **FLAVOURS[k % len(FLAVOURS)], **kw} for k in range(n)]
 
 
 def run_container(rep: Report, wd: Path, pid: str, js: List[Dict[str, Any]], label: str = "container_histories",
@@ -220,7 +230,7 @@ def standard_run(pid: str, tier: str, rule: str, assumptions: List[str], extra=N
         import concurrent.futures as cf
         with cf.ThreadPoolExecutor(max_workers=2) as ex:
             fut = ex.submit(container_model, rep, wd, pid, 4 if quick else 5, 6 if quick else 8)
-            js = jobs(36 if quick else 500, 16 if quick else 28, seed, nq=nq_quick if quick else 12)
+            js = jobs(48 if quick else 600, 18 if quick else 28, seed, nq=nq_quick if quick else 12)
             good, verd = run_container(rep, wd, pid, js)
             for j, t in good[:2]:
                 rep.sample({"tid": j["tid"], "ops": [[e["op"], "/".join(e["a"].get("p", [])), "/".join(e["a"].get("q", [])),
